@@ -5,6 +5,10 @@ export GOFLAGS=-mod=mod GOPROXY=off GOSUMDB=off GOTOOLCHAIN=local
 mkdir -p bin .work evidence
 go build -o bin/vcheck ./cmd/vcheck || exit 1
 go build -o bin/vinstr ./cmd/vinstr || exit 1
+# the probe service's stub/proxy is generated (never committed): produce it with the
+# repository's own generator before anything that links the scenarios is built
+go build -o bin/probegen ./cmd/probegen || exit 1
+bin/probegen scenarios/probe/probe.idl scenarios/probe || exit 1
 go build ./cmd/... ./rt/... ./internal/report/... ./internal/explore/... || exit 1
 go build ./... 2>/dev/null || true
 # engine self-tests (interleaving counts, channel/mutex semantics, deadlock and crash detection)
